@@ -205,6 +205,7 @@ def stepDpCase (c : DpCase) (w : List String) : Option (Option DpCase × String)
 
 def stepDp (st : Option DpCase) (w : List String) : Option DpCase × String :=
   match w with
+  | ["dp.env", _] => (st, "env")
   | "dp.new" :: args =>
     match dpNew args with
     | none => (st, "bad-op")
